@@ -286,6 +286,17 @@ fn read_text(t: &[u8]) -> R<vcf::Header> {
     })
 }
 
+/// the textual criterion of NV.Vcf.Header.unmodelled_lines
+fn unmodelled(lines: &[&[u8]]) -> bool {
+    lines.iter().any(|l| {
+        let Some(r) = l.strip_prefix(b"##") else { return false };
+        let Some(i) = r.iter().position(|&b| b == b'=') else { return false };
+        let (k, v) = (&r[..i], &r[i + 1..]);
+        let std = [&b"fileformat"[..], b"INFO", b"FILTER", b"FORMAT", b"ALT", b"contig"].contains(&k);
+        !std && (k == b"META" || k == b"PEDIGREE" || v.first() == Some(&b'<'))
+    })
+}
+
 fn dump_of(r: &R<vcf::Header>) -> Option<String> {
     match r {
         R::Ok(h) => unbuild(h).map(|x| header_str(&x)),
@@ -316,7 +327,8 @@ pub fn run_hw(c: &Case) -> Obs {
     if matches!(r, R::Panic) {
         return Obs::fail("Panic", "hw-parser-panic", &c.args[0]);
     }
-    let Some(d) = dump_of(&r) else { return Obs::ok("-", false) };
+    let raw_lines: Vec<&[u8]> = body.split(|&b| b == b'\n').collect();
+    let d = if unmodelled(&raw_lines) { "U".to_string() } else { match dump_of(&r) { Some(d) => d, None => return Obs::fail("-", "hw-structured-other-outside-criterion", &c.args[0]) } };
     let obs = format!("{}|{d}", lines.join(","));
     let verdict = if !valid {
         Ok(())
@@ -341,9 +353,13 @@ pub fn run_hp(c: &Case) -> Obs {
     if matches!(r, R::Panic) {
         return Obs::fail("Panic", "hp-parser-panic", &c.args[0]);
     }
+    let raw_lines: Vec<&[u8]> = lines.iter().map(|l| &l[..]).collect();
+    if unmodelled(&raw_lines) {
+        return Obs::ok("U", false);
+    }
     match dump_of(&r) {
         Some(d) => Obs::ok(d, true),
-        None => Obs::ok("-", false),
+        None => Obs::fail("-", "hp-structured-other-outside-criterion", &c.args[0]),
     }
 }
 
